@@ -222,6 +222,22 @@ def run(ctx):
     if not np.isfinite(M).all() or np.abs(off).max() > 0 or np.diag(M).min() < 0:
       ctx.fail_input('diagonal_nonneg', 'diagonal MMC started from a non-diagonal matrix returns a matrix that is not diagonal with non-negative entries',
                      inp, observed=M.tolist())
+  # ---- all pair differences on one line in R^3 (a legal pair set): the ascent direction of the first cycle has norm zero
+  from metric_learn import MMC as _MMC
+  u0 = np.array([1.0, 2.0, -1.0])
+  ts0 = np.array([0.0, 1.0, 3.0, 4.0, 7.0, 9.0])
+  Xl0 = 5.0 + ts0[:, None] * u0
+  pl0 = np.array([[Xl0[0], Xl0[1]], [Xl0[2], Xl0[3]], [Xl0[0], Xl0[4]], [Xl0[1], Xl0[5]]])
+  ctx.count('collinear_pairs', 1)
+  try:
+    with warnings.catch_warnings():
+      warnings.simplefilter('ignore')
+      Mc = _MMC().fit(pl0, [1, 1, -1, -1]).get_mahalanobis_matrix()
+    if not np.isfinite(Mc).all() or np.linalg.eigvalsh((Mc + Mc.T) / 2).min() < -1e-9 * np.abs(Mc).max():
+      ctx.fail_input('psd', 'MMC on collinear pair differences returns a matrix that is not finite / PSD', dict(pairs=pl0.tolist()), observed=Mc.tolist())
+  except Exception as ex:
+    ctx.fail_input('fit_runs', 'MMC().fit on pairs whose points lie on one line of R^3 raises %s' % type(ex).__name__,
+                   dict(pairs=pl0.tolist(), y=[1, 1, -1, -1]), observed=str(ex)[:120])
   if ok:
     res = ctx.run_cases('c14', HEADER, terms, per_file=10)
     for r, rec in zip(res, recs):
